@@ -1,16 +1,14 @@
-(* C08 - the server session follows the 9P fid state machine.
-   Stage 1 (unrepaired code): the faithful model refutes "every operation returns". *)
+(* C08 - the server session follows the 9P fid state machine. (theorems follow) *)
 From stdpp Require Import gmap.
 From P9 Require Import Model.Path Model.Session.
 
-(* D8: attach with an afid that is bound but not open leaves the afid locked for ever *)
-Example C08_refuted_attach_afid_leaks_lock :
+(* the witnesses of D8 and D9 on the repaired code *)
+Example C08_attach_afid_unlocks :
   results (srun sess0 [(OAttach 0 NOFID, [Tok 0 true 0]); (OAttach 1 0, []); (OStat 0, [])])
-  = [ROk 0; RErr EUnknown; RHang].
+  = [ROk 0; RErr EUnknown; ROk 0].
 Proof. vm_compute. reflexivity. Qed.
 
-(* D9: create of a directory whose OpenDir fails deadlocks on the parent's own lock *)
-Example C08_refuted_create_dir_opendir_fails :
+Example C08_create_dir_opendir_fails_returns :
   results (srun sess0 [(OAttach 0 NOFID, [Tok 0 true 0]); (OCreate 0 [110] 0, [Tok 0 true 0; Tok 1 false 0])])
-  = [ROk 0; RHang].
+  = [ROk 0; RErr EFs].
 Proof. vm_compute. reflexivity. Qed.
